@@ -81,6 +81,39 @@ Proof.
   rewrite run_cons, R_sym_done, run_nil. apply LandsReady. exists MSymbol, ba, sh, rn, rc. reflexivity.
 Qed.
 
+(* in symbol mode the bytes `body` add the bytes `bs` to the name being read (escapes included) *)
+Definition SymBody (body bs : list byte) : Prop :=
+  forall ba sh rn rc p q, exists rn' rc',
+    run (mkS MSymbol MSymbol ba sh rn rc p q) body = mkS MSymbol MSymbol ba sh rn' rc' p (q ++ bs).
+Lemma SymBody_nil : SymBody [] [].
+Proof. intros ba sh rn rc p q. exists rn, rc. rewrite app_nil_r. reflexivity. Qed.
+Lemma SymBody_app b1 s1 b2 s2 : SymBody b1 s1 -> SymBody b2 s2 -> SymBody (b1 ++ b2) (s1 ++ s2).
+Proof.
+  intros H1 H2 ba sh rn rc p q. destruct (H1 ba sh rn rc p q) as (rn1 & rc1 & E1).
+  destruct (H2 ba sh rn1 rc1 p (q ++ s1)) as (rn2 & rc2 & E2). exists rn2, rc2.
+  rewrite run_app, E1, E2, app_assoc. reflexivity.
+Qed.
+Lemma SymBody_plain b : act T03 MSymbol b = AStrByte -> SymBody [b] [b].
+Proof. intros H ba sh rn rc p q. exists rn, rc. rewrite run_cons, R_sym_byte by exact H. reflexivity. Qed.
+Lemma R_sym_esc m ba sh rn rc p q : R (mkS MSymbol m ba sh rn rc p q) 92 = mkS MEsc m ba sh rn rc p q.
+Proof. reflexivity. Qed.
+Lemma SymBody_esc1 x : act T03 MEsc x = AEscOne -> SymBody [92; x] [esc03 x].
+Proof. intros H ba sh rn rc p q. exists rn, rc. rewrite run_cons, R_sym_esc, run_cons, R_esc_one by exact H. reflexivity. Qed.
+Lemma SymBody_u4 a b c d : a < 16 -> b < 16 -> c < 16 -> d < 16 ->
+  SymBody [92; 117; hexd a; hexd b; hexd c; hexd d] (utf8 (((a * 16 + b) * 16 + c) * 16 + d)).
+Proof.
+  intros Ha Hb Hc Hd ba sh rn rc p q. eexists. exists 0%nat.
+  rewrite run_cons, R_sym_esc, run_cons, R_esc_u, run_cons, R_rune_more, run_cons, R_rune_more, run_cons, R_rune_more by assumption.
+  rewrite run_cons, R_rune_last by assumption. rewrite run_nil, !N.mul_0_l, !N.add_0_l. reflexivity.
+Qed.
+Lemma Reads_pipe_body body name : SymBody body name -> Reads ([124] ++ body ++ [124]) (TLeaf (LPipe name)).
+Proof.
+  intros H s p (n & ba & sh & rn & rc & ->) Hnm.
+  cbn [app]. rewrite run_cons, R_value_pipe, run_app.
+  destruct (H ba sh rn rc p []) as (rn' & rc' & E). rewrite E, run_cons, R_sym_done, run_nil.
+  apply LandsReady. exists MSymbol, ba, sh, rn', rc'. reflexivity.
+Qed.
+
 (* ---- #\characters ---- *)
 Lemma run_char_bytes n ba sh rn rc p name : (forall b, In b name -> act T03 MChar b = ASkip) -> forall q,
   run (mkS MChar n ba sh rn rc p q) name = mkS MChar n ba sh rn rc p (q ++ name).
